@@ -72,6 +72,7 @@ func crashChild(args []string) {
 	r := &runner{e: e, sc: sc, mode: "crash", rdSt: "idle"}
 	armed = true
 	gcDone := false
+	var slow *call
 	for i := range p.Prog {
 		c := p.Prog[i]
 		switch c.Op {
@@ -81,6 +82,15 @@ func crashChild(args []string) {
 				must(gc.RunOnce(context.WithValue(e.ctx, gcKeyT{}, true), e.gcObj))
 			}
 		case "RdResolve", "RdOpen", "RdRead", "RdClose":
+		case "PutBegin":
+			slow = &p.Prog[i]
+		case "PutCommit":
+			if slow != nil {
+				gcDone = false
+				put := call{Op: "Put", K: slow.K, C: slow.C, S: slow.S}
+				r.exec(&put)
+				slow = nil
+			}
 		default:
 			gcDone = false
 			r.exec(&c)
